@@ -15,5 +15,8 @@ example : Generated.statusWrites = ["scheduler: runDone", "scheduler: runInProgr
 deferred call -/
 example : (Generated.goroutineHeads.any fun h =>
     GoModel.hasPrefix (GoModel.b h) (GoModel.b "send semaphore; defer func{...}")) = true := by decide
+/-- the task goroutine holds the Task's mutex from before its first attempt until it returns
+(`x.Lock(); defer x.Unlock()` ahead of the attempt loop): the ground of `holdsLock` in `Lemmas/SharedTask.lean` -/
+example : Generated.taskLockBeforeAttempts = true := by decide
 example : Generated.runStatusOrder = ["runPending", "runInProgress", "runSkip", "runDone"] := by decide
 end Tie
